@@ -10,7 +10,6 @@ import (
 	"github.com/unixpickle/model3d/numerical"
 	"github.com/unixpickle/model3d/toolbox3d"
 	"pgregory.net/rapid"
-	"verifharness/gen"
 	"verifharness/kit"
 )
 
@@ -43,7 +42,7 @@ func genPoly(t *rapid.T) polyCase {
 		w := make([]float64, k+1)
 		var sum float64
 		for i := range w {
-			w[i] = gen.F(t, 0, 1, "gap") + 1e-3
+			w[i] = F(t, 0, 1, "gap") + 1e-3
 			sum += w[i]
 		}
 		slack := 8 - rootSep*float64(k-1)
@@ -57,9 +56,9 @@ func genPoly(t *rapid.T) polyCase {
 		}
 	}
 	for i := 0; i < nq; i++ {
-		c.Quads = append(c.Quads, [2]float64{gen.F(t, -4, 4, "qb"), gen.LogF(t, 0.8, 8, "qd")})
+		c.Quads = append(c.Quads, [2]float64{F(t, -4, 4, "qb"), LogF(t, 0.8, 8, "qd")})
 	}
-	c.Lead = gen.LogF(t, 0.1, 10, "lead")
+	c.Lead = LogF(t, 0.1, 10, "lead")
 	if rapid.Bool().Draw(t, "neglead") {
 		c.Lead = -c.Lead
 	}
@@ -203,10 +202,10 @@ func genOpt(t *rapid.T, kinds []string) optCase {
 	d := optDim(c.Kind)
 	maxStops := []int{0, 12, 7, 5, 3}[d]
 	for i := 0; i < d; i++ {
-		c.Min = append(c.Min, gen.F(t, -5, 5, "min"))
-		c.Size = append(c.Size, gen.LogF(t, 0.1, 10, "size"))
+		c.Min = append(c.Min, F(t, -5, 5, "min"))
+		c.Size = append(c.Size, LogF(t, 0.1, 10, "size"))
 		c.Stops = append(c.Stops, rapid.IntRange(1, maxStops).Draw(t, "stops"))
-		c.C = append(c.C, gen.F(t, 0, 1, "c"))
+		c.C = append(c.C, F(t, 0, 1, "c"))
 	}
 	c.Rec = rapid.IntRange(0, 3).Draw(t, "rec")
 	if d == 4 {
@@ -216,16 +215,16 @@ func genOpt(t *rapid.T, kinds []string) optCase {
 	c.Iters = rapid.SampledFrom([]int{0, 1, 2, 3, 5, 8, 13, 21, 34, 64, 100}).Draw(t, "iters")
 	nw := rapid.IntRange(0, 4).Draw(t, "waves")
 	for k := 0; k < nw; k++ {
-		w := []float64{gen.F(t, 0.1, 1, "amp"), gen.F(t, 0, 6.3, "phase")}
+		w := []float64{F(t, 0.1, 1, "amp"), F(t, 0, 6.3, "phase")}
 		for i := 0; i < d; i++ {
 			// up to ~40 periods across the interval: far above the sampling density, so refined
 			// samples are effectively independent of the coarse ones
-			w = append(w, gen.F(t, -250, 250, "freq")/c.Size[i])
+			w = append(w, F(t, -250, 250, "freq")/c.Size[i])
 		}
 		c.Waves = append(c.Waves, w)
 	}
-	c.Q = gen.F(t, 0, 2, "q")
-	c.Slope = [2]float64{gen.LogF(t, 0.01, 100, "sl"), gen.LogF(t, 0.01, 100, "sr")}
+	c.Q = F(t, 0, 2, "q")
+	c.Slope = [2]float64{LogF(t, 0.01, 100, "sl"), LogF(t, 0.01, 100, "sr")}
 	return c
 }
 
@@ -461,11 +460,11 @@ func genAngle(t *rapid.T) angleCase {
 			return float64(rapid.IntRange(-200, 200).Draw(t, label+".k")) * math.Pi / 2
 		case 1:
 			// just beside a multiple of 2*pi
-			return float64(rapid.IntRange(-50, 50).Draw(t, label+".k"))*2*math.Pi + gen.F(t, -1e-9, 1e-9, label+".d")
+			return float64(rapid.IntRange(-50, 50).Draw(t, label+".k"))*2*math.Pi + F(t, -1e-9, 1e-9, label+".d")
 		case 2:
-			return gen.F(t, -7, 7, label+".small")
+			return F(t, -7, 7, label+".small")
 		}
-		return gen.F(t, -100*math.Pi, 100*math.Pi, label)
+		return F(t, -100*math.Pi, 100*math.Pi, label)
 	}
 	return angleCase{draw("a"), draw("b")}
 }
